@@ -22,6 +22,7 @@ LEVEL = "model_checking"
 TRUSTED = ["z3 5.1 QF_UFBV", "fixedint model (validated each run)", "the reference cache (checks/cachestep.py post-state reference; concrete trace-driven reference in this file)"]
 ASSUMPTIONS = [
     "step harness: program of 5 instructions at addresses 0..16; geometries (index bits, block bits, ways) in {0,1}x{0,1}x{1,2}; tags of resident blocks symbolic over the 4 block numbers that can occur (complete case split); induction over fetches",
+    "reload harness: all ordered pairs of 5 concrete program texts (incl. empty and failing), 0/3/30 executed steps before the reload",
     "program harness: bounds of C02 (L<=2 quick), instruction cache geometries (0,0,1), (1,0,2 lru), (0,1,2 plru), symbolic miss penalty in [0,1000]",
 ]
 RULE = "one case = one feasible path of one fetch from a symbolic invariant state, of reset(), or of a bounded symbolic program run in both modes with an instruction cache"
@@ -286,7 +287,58 @@ def h_config(e, **kw):
     return cachestep.h_config(e, **kw)
 
 
-HARNESSES = {"step": h_step, "reset": h_reset, "prog": h_prog, "config": h_config}
+RELOAD_PROGS = [
+    "addi x1, x0, 11\naddi x2, x0, 12",
+    "addi x3, x0, 13\naddi x4, x0, 14\naddi x5, x0, 15\naddi x6, x0, 16\nbeq x0, x0, 8\naddi x7, x0, 1\naddi x8, x0, 2",
+    "loop: addi x1, x1, 1\naddi x2, x2, 2\nblt x1, x9, loop",
+    "",
+    "addi x1, x0,",  # fails to assemble
+]
+
+
+def h_reload(e, ia, ib, mode, cfg, steps):
+    """load A, execute `steps` steps, load B: the instruction cache must be as after loading B into
+    a fresh simulation, and running B gives the same results and statistics"""
+    from checks.snap import cache_snapshot
+    from symx.state import cache_options
+    from architecture_simulator.simulation.riscv_simulation import RiscvSimulation
+
+    repl, ib_, bb, ways = cfg
+
+    def mk():
+        return RiscvSimulation(mode=mode, instruction_cache=cache_options(True, ib_, bb, ways, "wb", repl, 3))
+
+    def load(sim, text):
+        try:
+            sim.load_program(text)
+            return None
+        except Exception as ex:  # noqa
+            return type(ex).__name__
+
+    s1 = mk()
+    load(s1, RELOAD_PROGS[ia])
+    for _ in range(steps):
+        if s1.is_done():
+            break
+        s1.step()
+    x1 = load(s1, RELOAD_PROGS[ib])
+    s2 = mk()
+    x2 = load(s2, RELOAD_PROGS[ib])
+    e.observe("load", [x1, x2])
+    e.claim("same-load-result", x1 == x2)
+    A, B = cache_snapshot(s1.state.instruction_memory), cache_snapshot(s2.state.instruction_memory)
+    for k in A:
+        e.claim("icache-after-reload==fresh:" + k, A[k] == B[k], {"reloaded": repr(A[k])[:200], "fresh": repr(B[k])[:200]})
+    e.claim("listing-after-reload==fresh", s1.state.instruction_memory.get_representation() == s2.state.instruction_memory.get_representation())
+    # fetches after the reload return the new program's instructions
+    lower1 = s1.state.instruction_memory.instruction_memory.instructions
+    for a in sorted(lower1):
+        got = s1.state.instruction_memory.read_instruction(a)
+        e.claim("fetch-after-reload-returns-new-instruction@%d" % a, got is lower1[a], {"got": repr(got)})
+    e.claim("canary:reload", A["hits"] == -1)
+
+
+HARNESSES = {"step": h_step, "reset": h_reset, "prog": h_prog, "config": h_config, "reload": h_reload}
 PCFG = [("lru", 0, 0, 1), ("lru", 1, 0, 2), ("plru", 0, 1, 2)]
 
 
@@ -303,6 +355,14 @@ def jobs(tier, seed):
             out.append({"label": "step-%s-i%db%dw%d" % (repl, ib, bb, ways), "harness": "step", "args": {"repl": repl, "ib": ib, "bb": bb, "ways": ways}, "cost": 10 * ways * (1 << ib), "validate_every": 3})
             out.append({"label": "reset-%s-i%db%dw%d" % (repl, ib, bb, ways), "harness": "reset", "args": {"repl": repl, "ib": ib, "bb": bb, "ways": ways}, "cost": 5, "validate_every": 5})
     out += cachestep.config_jobs("checks.c11")
+    n_ = 0
+    for ia in range(len(RELOAD_PROGS)):
+        for ib in range(len(RELOAD_PROGS)):
+            for steps in (0, 3, 30):
+                n_ += 1
+                cfg = PCFG[n_ % len(PCFG)]
+                mode = ["single_stage_pipeline", "five_stage_pipeline"][n_ % 2]
+                out.append({"label": "reload-%d-%d-s%d" % (ia, ib, steps), "harness": "reload", "args": {"ia": ia, "ib": ib, "mode": mode, "cfg": list(cfg), "steps": steps}, "cost": 1, "validate": False})
     common = {"timeout_ms": 10000, "cut_on_undecided": True}
     i = 0
     for L in (1, 2):
